@@ -109,8 +109,8 @@ func shutdownWithin(t *testing.T, e *env, name string) {
 	go func() { e.pool.Shutdown(); e.run.Wait(); close(done) }()
 	select {
 	case <-done:
-	case <-time.After(5 * time.Second):
-		t.Errorf("%s: Shutdown / Run did not return within 5s", name)
+	case <-time.After(2 * time.Second):
+		t.Errorf("%s: Shutdown / Run did not return within 2s", name)
 	}
 }
 
